@@ -222,6 +222,24 @@ func armsOf(body ast.Node) [][]arm {
 			if len(as) >= 2 {
 				out = append(out, as)
 			}
+		case *ast.BlockStmt:
+			// consecutive plain if statements (no else, no init) of one statement list: the same thing as an
+			// if / else-if chain whose arms all exit, or whose conditions exclude each other
+			var run []arm
+			flush := func() {
+				if len(run) >= 2 {
+					out = append(out, run)
+				}
+				run = nil
+			}
+			for _, st := range x.List {
+				if is, ok := st.(*ast.IfStmt); ok && is.Else == nil && is.Init == nil {
+					run = append(run, arm{[]ast.Expr{is.Cond}, is.Body.List, is.Pos()})
+				} else {
+					flush()
+				}
+			}
+			flush()
 		case *ast.IfStmt:
 			if seenIf[x] {
 				return true
